@@ -203,6 +203,8 @@ func (p *intPrinter) expr(t *Term) string {
 				}
 			}
 		}
+	case OMulHiS:
+		return fmt.Sprintf("(div (* %s %s) %s)", r(0), r(1), pow2(64))
 	case OSExt:
 		return r(0)
 	case OZExt:
